@@ -288,6 +288,91 @@ func checkGuards(c *Ctx, spec GuardSpec) {
 		})
 		return t
 	}
+	// Helpers that are always called with the lock held need not be listed: a method of the guarded struct that is not
+	// in the table is treated as "called with the lock held (mode m)" when it has at least one static call site and every
+	// one of them holds the guard of the receiver in mode >= m. Computed by a pre-pass over the callers (two rounds, so
+	// that helpers of helpers are covered); the sites are then verified again by the main pass like the listed ones.
+	{
+		locked := map[string]int{}
+		for k, v := range spec.Locked {
+			locked[k] = v
+		}
+		for round := 0; round < 2; round++ {
+			pre := newLockAnalysis(p)
+			siteModes := map[string][]int{}
+			for _, fn := range fns {
+				init := lockset{}
+				if fn.Parent() != nil {
+					if l, ok := pre.initial[fn]; ok {
+						init = l
+					}
+				} else if o := funcObjOf(fn); o != nil {
+					if m, ok := locked[objKey(o)]; ok && len(fn.Params) > 0 {
+						init[fn.Params[0].Name()+"."+spec.Guard] = m
+					}
+				}
+				pre.run(fn, init, func(ins ssa.Instruction, held lockset) {
+					ci, ok := ins.(ssa.CallInstruction)
+					if !ok {
+						return
+					}
+					if _, isGo := ins.(*ssa.Go); isGo {
+						return
+					}
+					callee := ci.Common().StaticCallee()
+					if callee == nil || callee.Signature.Recv() == nil || len(ci.Common().Args) == 0 || !isStructPtr(callee.Signature.Recv().Type(), spec.Struct) {
+						return
+					}
+					o := funcObjOf(callee)
+					if o == nil {
+						return
+					}
+					base := pathOf(ci.Common().Args[0])
+					siteModes[objKey(o)] = append(siteModes[objKey(o)], held[base+"."+spec.Guard])
+				})
+			}
+			for k, modes := range siteModes {
+				if _, listed := locked[k]; listed {
+					continue
+				}
+				m := modeW
+				for _, x := range modes {
+					if x < m {
+						m = x
+					}
+				}
+				if m >= modeR {
+					locked[k] = m
+				}
+			}
+		}
+		// only helpers that do not take the lock themselves
+		for k, v := range locked {
+			if _, listed := spec.Locked[k]; listed {
+				continue
+			}
+			takes := false
+			for _, fn := range fns {
+				if fn.Parent() != nil {
+					continue
+				}
+				if o := funcObjOf(fn); o != nil && objKey(o) == k {
+					eachInstr(fn, func(ins ssa.Instruction) {
+						if oo := calleeObj(ins); oo != nil && (oo.Name() == "Lock" || oo.Name() == "RLock") {
+							takes = true
+						}
+					})
+				}
+			}
+			if !takes {
+				if spec.Locked == nil {
+					spec.Locked = map[string]int{}
+				}
+				spec.Locked[k] = v
+				c.Infof("%s: %s inferred to be called with %s held (mode %d) at all of its call sites", spec.Name, k, spec.Guard, v)
+			}
+		}
+	}
 	nAcc, nCall := 0, 0
 	relevant := map[*ssa.Function]bool{}
 	for _, fn := range fns {
